@@ -64,11 +64,14 @@ def gen_case(rng, seed, matrix=None):
     x = rng.choice(ids)
     point, how = (matrix[2], matrix[3]) if matrix else rng.choice([
         ('setup', 'exit'), ('setup', 'raise'), ('process', 'exit'), ('process', 'raise'), ('process', 'stop_evt'), ('process', 'exit'), ('process', 'raise'),
-        ('callable', 'raise'), ('callable', 'exit'), ('shutdown', 'exit'), ('shutdown', 'raise'), ('external-stop', 'stop_evt'), ('init', 'raise')])
+        ('callable', 'raise'), ('callable', 'exit'), ('shutdown', 'exit'), ('shutdown', 'raise'), ('external-stop', 'stop_evt'), ('init', 'raise'),
+        ('init-late', 'raise'), ('init-late', 'exit')])
     node = p.by_id[x]
     k = rng.choice([0, 1, 5, 8, 8, 12])
     faults = []
     trigger = None          # a second filter whose clean exit makes X run its shutdown()
+    if point == 'init-late':
+        node['beh']['inject'] = {'point': 'init-late', 'how': how, 'k': None}
     if point in ('setup', 'process', 'shutdown'):
         node['beh']['inject'] = {'point': point, 'how': how, 'k': k if point == 'process' else None}
         if point == 'shutdown':
@@ -285,7 +288,7 @@ def run_shard(ctx):
         i = 0
         for pe in POL:
             for oe in POL:
-                for point, how in [('process', 'exit'), ('process', 'raise'), ('process', 'stop_evt'), ('callable', 'raise'), ('shutdown', 'raise'), ('shutdown', 'exit'), ('setup', 'raise'), ('setup', 'exit'), ('external-stop', 'stop_evt'), ('init', 'raise')]:
+                for point, how in [('process', 'exit'), ('process', 'raise'), ('process', 'stop_evt'), ('callable', 'raise'), ('shutdown', 'raise'), ('shutdown', 'exit'), ('setup', 'raise'), ('setup', 'exit'), ('external-stop', 'stop_evt'), ('init', 'raise'), ('init-late', 'raise'), ('init-late', 'exit')]:
                     for rep in range(3):
                         i += 1
                         if ctx.mine(i):
